@@ -193,9 +193,11 @@ func builtinRules(c *Ctx, names []string, ref *effRef, rulePrefix string) {
 		// return discipline
 		ts := &typestate{fn: f, nstate: 3, init: 0}
 		ts.trans = func(in ssa.Instruction, st int) int {
-			if call, ok := in.(*ssa.Call); ok && call.Call.StaticCallee() != nil && call.Call.StaticCallee().Name() == "ReturnAppend" {
-				if st < 2 {
-					return st + 1
+			if call, ok := in.(*ssa.Call); ok && call.Call.StaticCallee() != nil {
+				// ReturnAppend itself, or a same-package helper / local closure that appends the same number of values
+				// on each of its paths
+				for k := retAppendCount(call.Call.StaticCallee(), 0); k > 0 && st < 2; k-- {
+					st++
 				}
 			}
 			return st
@@ -350,16 +352,7 @@ func checkC12(c *Ctx) {
 	})
 	r.Ob("PATTERN-SCOPE", "Stack.SetPattern writes only the receiver's own pattern table", t.Pos(sSet.Pos()), okStore && nStore > 0,
 		fmt.Sprintf("%d map stores; foreign target: %q — a definition must shadow, never overwrite, the pattern of an enclosing block (it would outlive the block that declares it)", nStore, foreign))
-	walks := false
-	for _, l := range naturalLoops(sGet) {
-		for b := range l.Blocks {
-			for _, in := range b.Instrs {
-				if u, ok := in.(*ssa.UnOp); ok && strings.HasSuffix(path(u), ".Before") {
-					walks = true
-				}
-			}
-		}
-	}
+	walks := walksBefore(sGet, 0)
 	r.Ob("PATTERN-SCOPE", "Stack.GetPattern searches the enclosing frames", t.Pos(sGet.Pos()), walks, "nested blocks see the definitions of their parents")
 	// Task.GetPattern: stack first, global on miss
 	var sg *ssa.Call
@@ -376,6 +369,33 @@ func checkC12(c *Ctx) {
 					if ex, ok := ec.Cond.(*ssa.Extract); ok && ex.Tuple == ssa.Value(sg) && ex.Index == 1 && !ec.Pol {
 						okGlobal = true
 					}
+				}
+			}
+		})
+	}
+	if !okGlobal {
+		// the scope chain is searched by another function that walks the Before links (a `find` helper returning the
+		// frame or nil): the global table is consulted only on its negative answer
+		allInstrs(getP, func(in ssa.Instruction) {
+			lk, ok := in.(*ssa.Lookup)
+			if !ok || !strings.Contains(path(lk.X), "DenormalizedGlobalPatterns") {
+				return
+			}
+			for _, ec := range controlling(lk.Block()) {
+				var call *ssa.Call
+				neg := false
+				switch x := ec.Cond.(type) {
+				case *ssa.Extract:
+					call, _ = x.Tuple.(*ssa.Call)
+					neg = x.Index == 1 && !ec.Pol
+				case *ssa.BinOp:
+					if isNilConst(x.Y) {
+						call, _ = x.X.(*ssa.Call)
+						neg = (x.Op == token.EQL) == ec.Pol
+					}
+				}
+				if call != nil && neg && walksBefore(call.Call.StaticCallee(), 0) {
+					okGlobal = true
 				}
 			}
 		})
@@ -562,21 +582,35 @@ func checkC12(c *Ctx) {
 		n := 0
 		// TimestampHandle itself, or the helper it hands tz to
 		type tzCtx struct {
-			g  *ssa.Function
-			tz *ssa.Parameter
+			g        *ssa.Function
+			tz       *ssa.Parameter
+			nonEmpty bool // the zone is known non-empty at (every) call of g on the way here
 		}
-		tzs := []tzCtx{{th, th.Params[1]}}
-		allInstrs(th, func(in ssa.Instruction) {
-			if call, ok := in.(*ssa.Call); ok {
-				if h := call.Call.StaticCallee(); h != nil && h.Pkg == th.Pkg && len(h.Blocks) > 0 {
-					for k, a := range call.Call.Args {
-						if a == ssa.Value(th.Params[1]) && k < len(h.Params) {
-							tzs = append(tzs, tzCtx{h, h.Params[k]})
+		nonEmptyAt := func(b *ssa.BasicBlock, name string) bool {
+			for _, ec := range controlling(b) {
+				s := ec.String()
+				if strings.Contains(s, name+` != ""`) && !strings.HasPrefix(s, "!(") || strings.Contains(s, name+` == ""`) && strings.HasPrefix(s, "!(") {
+					return true
+				}
+			}
+			return false
+		}
+		tzs := []tzCtx{{th, th.Params[1], false}}
+		// the helpers the zone is handed to, three levels deep
+		for i := 0; i < len(tzs) && i < 8; i++ {
+			cur := tzs[i]
+			allInstrs(cur.g, func(in ssa.Instruction) {
+				if call, ok := in.(*ssa.Call); ok {
+					if h := call.Call.StaticCallee(); h != nil && h.Pkg == th.Pkg && len(h.Blocks) > 0 && h != cur.g {
+						for k, a := range call.Call.Args {
+							if a == ssa.Value(cur.tz) && k < len(h.Params) {
+								tzs = append(tzs, tzCtx{h, h.Params[k], cur.nonEmpty || nonEmptyAt(call.Block(), cur.tz.Name())})
+							}
 						}
 					}
 				}
-			}
-		})
+			})
+		}
 		for _, tc := range tzs {
 			th := tc.g
 			tzName := tc.tz.Name()
@@ -586,14 +620,7 @@ func checkC12(c *Ctx) {
 					return
 				}
 				n++
-				g := false
-				for _, ec := range controlling(ix.Block()) {
-					s := ec.String()
-					if strings.Contains(s, tzName+` != ""`) && !strings.HasPrefix(s, "!(") || strings.Contains(s, tzName+` == ""`) && strings.HasPrefix(s, "!(") {
-						g = true
-					}
-				}
-				if !g {
+				if !tc.nonEmpty && !nonEmptyAt(ix.Block(), tzName) {
 					okIdx = false
 				}
 			})
@@ -608,8 +635,16 @@ func checkC12(c *Ctx) {
 					for _, b := range th.Blocks {
 						if iff, ok := b.Instrs[len(b.Instrs)-1].(*ssa.If); ok {
 							if ex, ok := iff.Cond.(*ssa.Extract); ok && ex.Tuple == ssa.Value(lk) && ex.Index == 1 {
-								if rejecting(b.Succs[1]) {
+								if rejecting(b.Succs[1]) || retClassFrom(b, 1) == "nonnil" {
 									okTbl = true
+								}
+							}
+							// `if _, has := table[tz]; !has`
+							if u, ok := iff.Cond.(*ssa.UnOp); ok && u.Op == token.NOT {
+								if ex, ok := u.X.(*ssa.Extract); ok && ex.Tuple == ssa.Value(lk) && ex.Index == 1 {
+									if rejecting(b.Succs[0]) || retClassFrom(b, 0) == "nonnil" {
+										okTbl = true
+									}
 								}
 							}
 						}
@@ -846,4 +881,83 @@ func freshRootFrameDirect(f *ssa.Function) bool {
 		}
 	})
 	return hdr && cur
+}
+
+// walksBefore: f (or a same-package function it calls, two levels) has a loop that follows the Before links of the
+// scope chain.
+func walksBefore(f *ssa.Function, depth int) bool {
+	if f == nil || len(f.Blocks) == 0 || depth > 2 {
+		return false
+	}
+	for _, l := range naturalLoops(f) {
+		for b := range l.Blocks {
+			for _, in := range b.Instrs {
+				if u, ok := in.(*ssa.UnOp); ok && strings.HasSuffix(path(u), ".Before") {
+					return true
+				}
+			}
+		}
+	}
+	found := false
+	allInstrs(f, func(in ssa.Instruction) {
+		if call, ok := in.(*ssa.Call); ok && !found {
+			if g := call.Call.StaticCallee(); g != nil && g != f && g.Pkg == f.Pkg && walksBefore(g, depth+1) {
+				found = true
+			}
+		}
+	})
+	return found
+}
+
+var retAppendMemo = map[*ssa.Function]int{}
+
+// retAppendCount: how many values g appends to the return registers — 1 for ReturnAppend itself; for an in-module
+// helper or closure the count it reaches at every one of its returns when that count is the same on all of them
+// (0 otherwise, and 0 for functions that do not append).
+func retAppendCount(g *ssa.Function, depth int) int {
+	if g == nil {
+		return 0
+	}
+	if g.Name() == "ReturnAppend" {
+		return 1
+	}
+	if len(g.Blocks) == 0 || !inModule(g) || depth > 2 {
+		return 0
+	}
+	if v, ok := retAppendMemo[g]; ok {
+		return v
+	}
+	retAppendMemo[g] = 0
+	// only functions whose name suggests nothing: decided by the dataflow
+	ts := &typestate{fn: g, nstate: 4, init: 0}
+	ts.trans = func(in ssa.Instruction, st int) int {
+		if call, ok := in.(*ssa.Call); ok && call.Call.StaticCallee() != nil && call.Call.StaticCallee() != g {
+			for k := retAppendCount(call.Call.StaticCallee(), depth+1); k > 0 && st < 3; k-- {
+				st++
+			}
+		}
+		return st
+	}
+	before := ts.run()
+	res, set, same := 0, false, true
+	allInstrs(g, func(in ssa.Instruction) {
+		ret, ok := in.(*ssa.Return)
+		if !ok || ret.Block() == g.Recover {
+			return
+		}
+		m := before[ret]
+		for st := 0; st < 4; st++ {
+			if m&(1<<uint(st)) != 0 {
+				if set && st != res {
+					same = false
+				}
+				res, set = st, true
+			}
+		}
+	})
+	if !same || !set || res > 2 {
+		res = 0
+	}
+	retAppendMemo[g] = res
+	return res
 }
